@@ -77,6 +77,46 @@ def secs(d: dt.datetime) -> int:
     return delta.days * 86400 + delta.seconds
 
 
+class Batch:
+    """All model lines of one run, sent to the driver in a single call (its start-up dominates)."""
+
+    def __init__(self):
+        self.items = []
+
+    def add(self, line: str, impl: str, desc: dict, pick=None) -> int:
+        """compare the model's output line (through `pick`, if given) with `impl`"""
+        self.items.append((line, impl, desc, pick, None))
+        return len(self.items) - 1
+
+    def add_same(self, line: str, index: int, desc: dict) -> int:
+        """the model's output for `line` must equal its output for the line added as `index`"""
+        self.items.append((line, None, desc, None, index))
+        return len(self.items) - 1
+
+    def extend(self, triples) -> None:
+        for line, impl, desc in triples:
+            self.add(line, impl, desc)
+
+    def flush(self, ctx) -> None:
+        if ctx.driver is None:
+            ctx.evaluated(len(self.items))
+            return
+        outs = ctx.model([it[0] for it in self.items])
+        for (line, impl, desc, pick, same), out in zip(self.items, outs):
+            ctx.evaluations += 1
+            ctx.traces += 1
+            got = pick(out) if pick else out
+            want = impl if same is None else outs[same]
+            if got != want:
+                ctx.disagree(line, want, out, desc)
+            elif len(ctx.samples) < 8 and ctx.rng.random() < 0.0005:
+                ctx.samples.append({'op': line[:300], 'impl': want[:300], 'model': out[:300]})
+        if len(ctx.samples) < 2:
+            for (line, impl, desc, pick, same), out in list(zip(self.items, outs))[:2]:
+                ctx.samples.append({'op': line[:300], 'impl': (impl or '')[:300], 'model': out[:300]})
+        self.items = []
+
+
 # --------------------------------------------------------------------------
 # the real code, canonicalised
 
@@ -323,7 +363,7 @@ def grid_cases(ctx) -> list:
     return cases
 
 
-def units_stream(ctx) -> None:
+def units_stream(ctx, batch: Batch) -> None:
     rng = ctx.rng
     work: list = []      # (calendar, units, case | None)
     for case in simple_first_cases():
@@ -421,32 +461,18 @@ def units_stream(ctx) -> None:
             ctx.evaluated()
             if a != b:
                 ctx.oracle_fail('time-instant-shifted', desc, f'stored value {k} decodes to {a} under {units!r} but {b} under {unesc(out)!r}')
-    if ctx.driver is None:
-        ctx.evaluated(len(lines))
-        return
-    # ---- the model: with the code's own consistency check (`fmt`) and without it (`fmtpure`) ----------
-    outs = ctx.model(lines)
-    pure = ctx.model(['fmtpure' + l[3:] for l in lines])
-    # the conclusions of output_form / same_instant evaluated by the model on the same inputs
-    sub = lines[:ctx.budget(600, 6000)]
-    for l, r in zip(sub, ctx.model(['propcheck ' + l for l in sub])):
-        ctx.evaluations += 1
-        if r != '1':
-            ctx.disagree('propcheck ' + l, '1', r, {'note': 'model-side counterexample to output_form / same_instant', 'op': l})
+    # ---- the model: with the code's own consistency check (`fmt`) and without it (`fmtpure`); the
+    # conclusions of output_form / same_instant evaluated by the model on the same inputs (`propcheck`)
+    nprop = ctx.budget(600, 6000)
     for k, line in enumerate(lines):
-        ctx.evaluations += 1
-        ctx.traces += 1
-        if pure[k] != outs[k]:
-            ctx.disagree('fmtpure' + line[3:], outs[k], pure[k], {'note': 'formatTimeUnits and formatTimeUnitsChecked differ', **descs[k]})
-        if outs[k] == impls[k]:
-            if len(ctx.samples) < 6 and ctx.rng.random() < 0.01:
-                ctx.samples.append({'op': line[:300], 'impl': impls[k][:300], 'model': outs[k][:300]})
-            continue
-        ctx.disagree(line, impls[k], outs[k], descs[k])
-    ctx.check_batch(side_items)
+        idx = batch.add(line, impls[k], descs[k])
+        batch.add_same('fmtpure' + line[3:], idx, {'note': 'formatTimeUnits and formatTimeUnitsChecked differ', **descs[k]})
+        if k < nprop:
+            batch.add('propcheck ' + line, '1', {'note': 'model-side counterexample to output_form / same_instant', 'op': line})
+    batch.extend(side_items)
 
 
-def offset_stream(ctx) -> None:
+def offset_stream(ctx, batch: Batch) -> None:
     """parseOffset against cftime's reading of an offset field; formatOffset round trip"""
     rng = ctx.rng
     texts = set()
@@ -488,10 +514,10 @@ def offset_stream(ctx) -> None:
         if u == '':
             continue
         items.append((f'unitok {esc(u)}', '1' if u in live else '0', {'op': f'unitok {u}'}))
-    ctx.check_batch(items)
+    batch.extend(items)
 
 
-def fill_stream(ctx) -> None:
+def fill_stream(ctx, batch: Batch) -> None:
     items = []
     for kind, dts in DTYPES.items():
         for d in dts:
@@ -520,17 +546,9 @@ def fill_stream(ctx) -> None:
                     # compared in file_fill_stream
                     items.append((line, slot, {'op': line, 'dtype': d, 'compare': 'slot'}))
                     ctx.nontrivial(('fill', d, enc, attr))
-    if ctx.driver is None:
-        ctx.evaluated(len(items))
-        return
-    outs = ctx.model([it[0] for it in items])
-    for (line, impl, desc), out in zip(items, outs):
-        ctx.evaluations += 1
-        ctx.traces += 1
-        got = out.split(' ')[0] if desc.get('compare') == 'slot' else out
-        if got != impl:
-            ctx.disagree(line, impl, out, desc)
-    file_fill_stream(ctx)
+    for line, impl, desc in items:
+        batch.add(line, impl, desc, pick=(lambda o: o.split(' ')[0]) if desc.get('compare') == 'slot' else None)
+    file_fill_stream(ctx, batch)
 
 
 WRITABLE = {
@@ -541,7 +559,7 @@ WRITABLE = {
 }
 
 
-def file_fill_stream(ctx) -> None:
+def file_fill_stream(ctx, batch: Batch) -> None:
     """one file with one variable per (dtype, encoding slot, attribute, on-disk dtype) combination,
     written through the real to_netcdf_with_fixes; `_FillValue` presence read back with netCDF4"""
     import netCDF4
@@ -616,15 +634,8 @@ def file_fill_stream(ctx) -> None:
                     ctx.count('fill-appears:int-cast-to-float(outside quantifier)')
             if src_had and not has:
                 ctx.oracle_fail('fill-value-lost', desc, f'{dtype} variable lost its _FillValue')
-        if ctx.driver is None:
-            return
-        outs = ctx.model([it[0] for it in items])
-        for (line, impl, desc), out in zip(items, outs):
-            ctx.evaluations += 1
-            ctx.traces += 1
-            got = out.split(' ')[-1]
-            if got != impl:
-                ctx.disagree(line, impl, out, desc)
+        for line, impl, desc in items:
+            batch.add(line, impl, desc, pick=lambda o: o.split(' ')[-1])
     finally:
         shutil.rmtree(tmp, ignore_errors=True)
 
@@ -632,7 +643,7 @@ def file_fill_stream(ctx) -> None:
 # --------------------------------------------------------------------------
 # fix_time_units_for_ems on a file
 
-def fixattrs_stream(ctx) -> None:
+def fixattrs_stream(ctx, batch: Batch) -> None:
     """files written with netCDF4 directly: the time variable with / without `units` and `calendar`;
     the real fix_time_units_for_ems against the model; nothing but the units attribute may change"""
     import netCDF4
@@ -683,7 +694,7 @@ def fixattrs_stream(ctx) -> None:
             os.unlink(path)
     finally:
         shutil.rmtree(tmp, ignore_errors=True)
-    ctx.check_batch(items)
+    batch.extend(items)
 
 
 # --------------------------------------------------------------------------
@@ -759,7 +770,7 @@ def timecoord_case(recipe: dict, cands: list, tdim: str, tmp: str) -> dict:
     return res
 
 
-def timecoord_stream(ctx) -> None:
+def timecoord_stream(ctx, batch: Batch) -> None:
     rng = ctx.rng
     pending = []     # (line tail, impl discovery, impl save outcome, desc)
     tmp = tempfile.mkdtemp(prefix='c17tc')
@@ -796,18 +807,10 @@ def timecoord_stream(ctx) -> None:
             ctx.count(f'timecoord:{conv}:' + ('found' if res['got'] != '-' else 'none'))
     finally:
         shutil.rmtree(tmp, ignore_errors=True)
-    if ctx.driver is None:
-        ctx.evaluated(len(pending))
-        return
-    prim = ctx.model([f'timecoord {t}' for t, *_ in pending])
-    sav = ctx.model([f'savetime {t}' for t, *_ in pending])
-    for (tail, got, saved, desc), p, sv in zip(pending, prim, sav):
-        ctx.evaluations += 1
-        ctx.traces += 1
-        if got != p:
-            ctx.disagree(f'timecoord {tail}', got, p, desc)
-        if saved is not None and saved != sv:
-            ctx.disagree(f'savetime {tail}', saved, sv, desc)
+    for tail, got, saved, desc in pending:
+        batch.add(f'timecoord {tail}', got, desc)
+        if saved is not None:
+            batch.add(f'savetime {tail}', saved, desc)
 
 
 # --------------------------------------------------------------------------
@@ -1026,7 +1029,7 @@ def run_roundtrip(ctx, rt: dict, tmp: str) -> list:
     return items
 
 
-def roundtrip_stream(ctx) -> None:
+def roundtrip_stream(ctx, batch: Batch) -> None:
     tmp = tempfile.mkdtemp(prefix='c17rt')
     items = []
     try:
@@ -1050,7 +1053,7 @@ def roundtrip_stream(ctx) -> None:
                         pass
     finally:
         shutil.rmtree(tmp, ignore_errors=True)
-    ctx.check_batch(items)
+    batch.extend(items)
 
 
 # --------------------------------------------------------------------------
@@ -1060,12 +1063,14 @@ def run(ctx) -> None:
         # the driver imports Core/Proto.lean, which no theorem module does: make sure it is compiled
         from harness import lean
         lean.build(['EmsModel.Core.Proto'])
-    units_stream(ctx)
-    offset_stream(ctx)
-    fill_stream(ctx)
-    fixattrs_stream(ctx)
-    timecoord_stream(ctx)
-    roundtrip_stream(ctx)
+    batch = Batch()
+    units_stream(ctx, batch)
+    offset_stream(ctx, batch)
+    fill_stream(ctx, batch)
+    fixattrs_stream(ctx, batch)
+    timecoord_stream(ctx, batch)
+    roundtrip_stream(ctx, batch)
+    batch.flush(ctx)
 
 
 def replay(ctx, data) -> int:
